@@ -137,8 +137,27 @@ def fingerprint(s):
     return hashlib.sha256(norm_tokens(s or "").encode()).hexdigest()[:16]
 
 
+LOG_RX = re.compile(r"\b(?:debug_now|debug|info_now|info|trace_now|trace|warn_now|warn|error_now|error) ! "
+                    r"\((?:[^()]|\((?:[^()]|\([^()]*\))*\))*\) ;? ?")
+
+
+def strip_logging(x):
+    """logging macro invocations carry no behaviour any property speaks about: drop them from every
+    function / arm body before anything is read (so they can be added, removed or reworded freely)"""
+    if isinstance(x, dict):
+        for k, v in list(x.items()):
+            if k == "body" and isinstance(v, str):
+                x[k] = LOG_RX.sub("", v)
+            else:
+                strip_logging(v)
+    elif isinstance(x, list):
+        for v in x:
+            strip_logging(v)
+
+
 class Model:
     def __init__(self, ast):
+        strip_logging(ast)
         self.ast = ast
         self.items = []  # (file, item)
         for f, v in sorted(ast["files"].items()):
@@ -860,7 +879,7 @@ class Model:
         t = {}
         groups = [("op", self._t_op), ("resp", self._t_resp), ("status", self._t_status), ("bitflags", self._t_bitflags),
                   ("dispatch", self._t_dispatch), ("consts", self._t_consts), ("strhelpers", self._t_strhelpers), ("fingerprints", self._t_fingerprints),
-                  ("gating", self._t_gating), ("layouts", self._t_layouts), ("u2fprog", self._t_u2fprog), ("arb", self._t_arb)]
+                  ("gating", self._t_gating), ("layouts", self._t_layouts), ("u2fprog", self._t_u2fprog), ("arb", self._t_arb), ("arbtree", self._t_arbtree)]
         for aspect, fn in groups:
             part = {}
             try:
@@ -923,7 +942,7 @@ class Model:
                     if f["kind"] == "fn" and f["name"] == "serialize":
                         t["resp_switch"] = self.resp_switch(f)
                         t["fp_response_serialize"] = fingerprint(f["body"])
-                        m = re.search(r"\* status = Error :: (\w+) as u8", f["body"])
+                        m = re.search(r"\* \w+ = Error :: (\w+) as u8", f["body"])
                         if not m:
                             raise Untranslatable("Response::serialize", "failure status assignment not recognised")
                         t["resp_error_variant"] = m.group(1)
@@ -1197,6 +1216,22 @@ class Model:
                             if s_["k"] == "be":
                                 s_["w"] = self.int_width(sname[1], "ctap1::" + sname[0], s_["f"], feats) if sname else None
                         lay["u2f" + variant] = steps
+        # `register::Response::new`: 0x04 ‖ x ‖ y pushed with unwrap(), the other members passed through
+        newfn = None
+        for imp in self.impls:
+            if imp["trait"] is None and imp["self_ty"].strip() == "Response" and imp["module"] == "ctap1::register":
+                for f in imp["items"]:
+                    if f["kind"] == "fn" and f["name"] == "new":
+                        newfn = f
+        tmpl = ("{ let mut public_key_bytes = Bytes :: new () ; public_key_bytes . push (0x04) . unwrap () ; "
+                "public_key_bytes . extend_from_slice (& public_key . x) . unwrap () ; "
+                "public_key_bytes . extend_from_slice (& public_key . y) . unwrap () ; "
+                "Self { header_byte , public_key : public_key_bytes , key_handle , attestation_certificate , signature , } }")
+        if newfn is None or self.alpha(newfn["body"]).replace(",}", "}") != self.alpha(tmpl).replace(",}", "}"):
+            raise Untranslatable("ctap1::register::Response::new", "body is not `0x04 ‖ x ‖ y, other members passed through`")
+        pk = [f for f, _ in self.fields_of(self.lookup("Response", "ctap1::register", ("struct",), feats), feats) if f["name"] == "public_key"]
+        if not pk or self.const_arg(pk[0]["ty"]["args"][0], "ctap1::register", feats) != 65:
+            raise Untranslatable("ctap1::register::Response", "public_key is not Bytes<65>")
         for need in ("authData", "attested", "u2fRegister", "u2fAuthenticate", "u2fVersion"):
             if need not in lay:
                 raise Untranslatable("layouts", need + " serialiser not found")
@@ -1285,6 +1320,13 @@ class Model:
                 fn = [f for f in imp["items"] if f["kind"] == "fn" and f["name"] == "try_from"][0]
         if fn is None:
             raise Untranslatable(where, "impl not found")
+        rv = re.search(r"let (\w+) = apdu \. data \(\)", fn["body"])
+        if rv and rv.group(1) != "request":
+            # the name of the local holding the APDU data is irrelevant
+            if re.search(r"\brequest\b", fn["body"]):
+                raise Untranslatable(where, "both `request` and another name for the APDU data are in use")
+            fn = json.loads(json.dumps(fn).replace(f"\\b{rv.group(1)}\\b", "request")) if False else \
+                json.loads(re.sub(r"(?<![A-Za-z0-9_])%s(?![A-Za-z0-9_])" % re.escape(rv.group(1)), "request", json.dumps(fn)))
         body = fn["body"].replace(" ", "")
         stmts = [x for x in self.split_statements(body) if x]
         if stmts[:4] != self.U2F_PRELUDE:
@@ -1335,6 +1377,160 @@ class Model:
             raise Untranslatable("ControlByte::try_from", f"error arms {sorted(errs)}")
         t["control_byte_err"] = self.U2F_ERRS[next(iter(errs))]
 
+    # ------------------------------------------------------------------ whole-request generator trees (C19)
+    ARB_PRIMS = {"bool", "u8", "u16", "u32", "u64", "usize", "i8", "i16", "i32", "i64", "str", "Bytes"}
+
+    def arb_impl_of(self, name, module=None):
+        full = (module + "::" if module else "") + name
+        for i in self.impls:
+            if i["module"] == "arbitrary" and (i["trait"] or "").replace(" ", "").startswith("Arbitrary<"):
+                st = i["self_ty"].replace(" ", "").split("<")[0]
+                if st == full or full.endswith("::" + st) or (module is None and st.split("::")[-1] == name):
+                    return i
+        return None
+
+    def arb_gen_of_type(self, ty, module, feats, depth=0):
+        """generator tree of `<T as Arbitrary>::arbitrary` for a field / payload type"""
+        if depth > 12:
+            raise Untranslatable("arbitrary", "generator tree too deep")
+        if ty["k"] == "ref":
+            inner = ty["inner"]
+            if inner["k"] == "slice" or (inner["k"] == "path" and inner["name"] in ("str", "Bytes")):
+                return {"k": "ext", "n": "&" + (inner.get("name") or "[u8]")}
+            return self.arb_gen_of_type(inner, module, feats, depth + 1)
+        if ty["k"] == "tuple" and not ty["elems"]:
+            return {"k": "struct", "fs": []}
+        if ty["k"] != "path":
+            raise Untranslatable("arbitrary", f"type form {ty['k']} in a derived generator")
+        ty = self.arb_resolve(ty, module, feats)
+        name = ty["name"]
+        if name == "Option":
+            return {"k": "opt", "g": self.arb_gen_of_type(ty["args"][0], module, feats, depth + 1)}
+        if name in self.ARB_PRIMS:
+            return {"k": "ext", "n": name}
+        it = self.lookup(ty["path"], module, ("struct", "enum"), feats)
+        if it is None:
+            # a foreign type: its impl lives outside ctap-types
+            return {"k": "ext", "n": name}
+        return self.arb_tree_of_item(it, feats, depth + 1)
+
+    def arb_tree_of_item(self, it, feats, depth=0):
+        name, mod = it["name"], it["module"]
+        imp = self.arb_impl_of(name, mod)
+        en, attrs = effective_attrs(it["attrs"], feats)
+        if imp is not None:
+            return self.arb_tree_of_impl(it, imp, feats, depth)
+        if "Arbitrary" not in derives(attrs):
+            # bitflags-generated and similar types: their impl is generated outside this crate's sources
+            return {"k": "ext", "n": name}
+        if it["kind"] == "struct":
+            return {"k": "struct", "fs": [self.arb_gen_of_type(f["ty"], mod, feats, depth + 1) for f, _ in self.fields_of(it, feats)]}
+        alts = []
+        for v in it["variants"]:
+            ven, _ = effective_attrs(v["attrs"], feats)
+            if not ven:
+                continue
+            alts.append({"k": "struct", "fs": [self.arb_gen_of_type(f["ty"], mod, feats, depth + 1) for f in v["fields"]]})
+        return {"k": "enum", "alts": alts}
+
+    def arb_tree_of_impl(self, it, imp, feats, depth):
+        """a hand-written `Arbitrary` impl of src/arbitrary.rs, statement by statement"""
+        name, mod = it["name"], it["module"]
+        where = "arbitrary::" + name
+        fn = [f for f in imp["items"] if f["kind"] == "fn" and f["name"] == "arbitrary"]
+        if len(fn) != 1:
+            raise Untranslatable(where, "no fn arbitrary")
+        stmts = [x for x in self.split_statements(fn[0]["body"].replace(" ", "")) if x]
+        fields = [f for f, _ in self.fields_of(it, feats)]
+        fidx = {f["name"]: i for i, f in enumerate(fields)}
+        lets = []
+        for st in stmts[:-1]:
+            mm = re.fullmatch(r"let(\w+)=(.*)", st)
+            if not mm:
+                raise Untranslatable(where, "statement not a let: " + st[:60])
+            lets.append((mm.group(1), mm.group(2)))
+        last = stmts[-1]
+        if it.get("tuple"):
+            mm = re.fullmatch(r"Ok\(Self\((\w+)\)\)", last)
+            binding = {mm.group(1): 0} if mm else None
+        else:
+            mm = re.fullmatch(r"Ok\(Self\{([\w,:]*)\}\)", last)
+            binding = None
+            if mm:
+                binding = {}
+                for part in mm.group(1).strip(",").split(","):
+                    fld, _, var = part.partition(":")
+                    binding[var or fld] = fidx.get(fld)
+        if not binding or any(v is None for v in binding.values()) or sorted(binding.values()) != list(range(len(fields))) \
+                or set(binding) != {n for n, _ in lets}:
+            raise Untranslatable(where, "constructor expression / lets not recognised")
+        out = []
+        for var, expr in lets:
+            ty = self.arb_resolve(fields[binding[var]]["ty"], mod, feats)
+            rawty = fields[binding[var]]["ty"]
+            inner = None
+            if ty["k"] == "path" and ty["name"] == "Option":
+                inner = ty["args"][0]
+                if inner["k"] == "path":
+                    inner = self.arb_resolve(inner, mod, feats)
+
+            def capof(t_):
+                return self.const_arg(t_["args"][-1], mod, feats)
+
+            def vec_of(t_):
+                return {"k": "vec", "cap": capof(t_), "g": self.arb_gen_of_type(t_["args"][0], mod, feats, depth + 1)}
+
+            if expr in ("u.arbitrary()?", "Arbitrary::arbitrary(u)?"):
+                g = self.arb_gen_of_type(rawty, mod, feats, depth + 1)
+            elif expr == "arbitrary_str(u)?" and ty.get("name") == "String":
+                g = {"k": "str", "cap": capof(ty)}
+            elif expr == "arbitrary_bytes(u)?" and ty.get("name") == "Bytes":
+                g = {"k": "bytes", "cap": capof(ty)}
+            elif expr == "arbitrary_vec(u)?" and ty.get("name") == "Vec":
+                g = vec_of(ty)
+            elif expr == "arbitrary_key(u)?":
+                g = {"k": "struct", "fs": [{"k": "bytes", "cap": 32}, {"k": "bytes", "cap": 32}]}
+            elif expr == "ifbool::arbitrary(u)?{Some(arbitrary_str(u)?)}else{None}" and inner is not None and inner.get("name") == "String":
+                g = {"k": "opt", "g": {"k": "str", "cap": capof(inner)}}
+            elif expr == "ifbool::arbitrary(u)?{Some(serde_bytes::Bytes::new(u.arbitrary()?))}else{None}":
+                g = {"k": "opt", "g": {"k": "ext", "n": "&[u8]"}}
+            elif expr == "serde_bytes::Bytes::new(u.arbitrary()?)":
+                g = {"k": "ext", "n": "&[u8]"}
+            elif expr == "arbitrary_option(u,arbitrary_key)?":
+                g = {"k": "opt", "g": {"k": "struct", "fs": [{"k": "bytes", "cap": 32}, {"k": "bytes", "cap": 32}]}}
+            elif expr == "arbitrary_option(u,arbitrary_vec)?" and inner is not None and inner.get("name") == "Vec":
+                g = {"k": "opt", "g": vec_of(inner)}
+            elif expr == "arbitrary_option(u,arbitrary_byte_array)?" and inner is not None and inner["k"] == "ref" \
+                    and inner["inner"].get("name") == "ByteArray":
+                g = {"k": "opt", "g": {"k": "byteArray", "n": self.const_arg(inner["inner"]["args"][0], mod, feats)}}
+            elif (mm := re.fullmatch(r"u\.bytes\((\w+)\)\?\.try_into\(\)\.unwrap\(\)", expr)):
+                n = parse_int_lit(mm.group(1))
+                want = rawty["inner"] if rawty["k"] == "ref" else rawty
+                if n is None or want.get("k") != "array" or parse_int_lit(want["len"].strip()) != n:
+                    raise Untranslatable(where, f"{var}: u.bytes({mm.group(1)}) does not match the member's array length")
+                g = {"k": "bytesArr", "n": n}
+            elif (mm := re.fullmatch(r"\*u\.choose\(&(?:\w+::)*(\w+)\)\?", expr)):
+                tb = self.by_name.get(mm.group(1), [])
+                if not tb:
+                    raise Untranslatable(where, "table of `choose` not found")
+                vals = [x for x in tb[0]["expr"].strip("[] ").split(",") if x.strip()]
+                g = {"k": "choose", "len": len(vals)}
+            else:
+                raise Untranslatable(where, f"draw not recognised: {var} = {expr[:80]}")
+            out.append(g)
+        return {"k": "struct", "fs": out}
+
+    def _t_arbtree(self, t, feats):
+        feats = frozenset({"arbitrary", "std"})
+        roots = {}
+        for label, path, mod in (("ctap2::Request", "Request", "ctap2"), ("ctap1::Request", "Request", "ctap1"),
+                                 ("authenticator::Request", "Request", "authenticator")):
+            it = self.lookup(path, mod, ("enum",), feats)
+            if it is None:
+                raise Untranslatable(label, "not found")
+            roots[label] = self.arb_tree_of_item(it, feats)
+        t["arb_trees"] = roots
+
     def _t_arb(self, t, feats):
         t["arb"] = self.arb_tables()
 
@@ -1358,10 +1554,11 @@ class Model:
         """normal form modulo renaming of local bindings (let / closure parameter / Ok-Err-Some
         binder), then without white space"""
         names = []
-        for m in re.finditer(r"\blet (?:mut )?(\w+)\b|\| (\w+) \||\b(?:Ok|Err|Some) \((\w+)\) =>|\bfor (\w+) in\b", body):
-            n = m.group(1) or m.group(2) or m.group(3) or m.group(4)
-            if n and n not in names and n != "_" and n != "u":
-                names.append(n)
+        for m in re.finditer(r"\blet \(\s*&?\s*(\w+) , (\w+)\s*\)|\blet (?:mut )?(?!Ok\b|Err\b|Some\b|None\b)(\w+)\b|\| (\w+) \||"
+                             r"\b(?:Ok|Err|Some) \((\w+)\) =|\bfor (\w+) in\b", body):
+            for n in m.groups():
+                if n and n not in names and n != "_" and n != "u":
+                    names.append(n)
         for k, n in enumerate(names):
             body = re.sub(r"\b%s\b" % re.escape(n), f"_v{k}", body)
         return body.replace(" ", "")
@@ -1619,13 +1816,13 @@ class Model:
                     break
         framed = body[:i] + "MATCH" + body[k + 1:]
         framed = re.sub(r"\b(?:debug_now|debug|info_now|info|trace|warn|error|error_now) ! \((?:[^()]|\([^()]*\))*\) ; ", "", framed)
-        return cls.alpha(framed.replace("(& op , data)", "(& OP , DATA)").replace(" ,)", ")").replace(",)", ")"))
+        return cls.alpha(framed.replace(" ,)", ")").replace(",)", ")"))
 
     def op_switch(self, f):
         am = re.search(r"let (\w+) = Operation :: try_from", f["body"])
         opvar = am.group(1) if am else "operation"
         fr = self.frame_of(f["body"], opvar)
-        if fr != self.alpha(self.REQ_FRAME.replace("(& op , data)", "(& OP , DATA)").replace(" ,)", ")")):
+        if fr != self.alpha(self.REQ_FRAME.replace(" ,)", ")")):
             raise Untranslatable("Request::deserialize", "the code around the operation switch (empty-input guard, split_first, "
                                  "Operation::try_from → InvalidCommand) is not of the recognised shape")
         m = None
@@ -1661,7 +1858,7 @@ class Model:
 
     def resp_switch(self, f):
         fr = self.frame_of(f["body"], "self")
-        mm = re.search(r"\* status = Error :: (\w+) as u8", f["body"])
+        mm = re.search(r"\* \w+ = Error :: (\w+) as u8", f["body"])
         if fr is None or mm is None or fr != self.alpha(self.RESP_FRAME.replace("%ERR%", mm.group(1))):
             raise Untranslatable("Response::serialize", "the code around the variant switch (status byte, empty-map collapse, "
                                  "truncation, failure status) is not of the recognised shape")
@@ -1676,7 +1873,9 @@ class Model:
             body = arm["body"].replace(" ", "")
             for p in arm["pat"].split("|"):
                 v = p.strip().split("(")[0].strip().split("::")[-1]
-                if body == "cbor_serialize(response,data)":
+                dm = re.search(r"let \(\s*\w+ , (\w+)\s*\) = buffer \. split_first_mut", f["body"])
+                bm = re.fullmatch(r"\w+\((\w+)\)", p.strip().replace(" ", ""))
+                if dm and bm and body == f"cbor_serialize({bm.group(1)},{dm.group(1)})":
                     arms.append({"variant": v, "k": "cbor"})
                 elif body == "Ok([].as_slice())":
                     arms.append({"variant": v, "k": "empty"})
